@@ -175,7 +175,7 @@ def run_inproc(d, files, listing_seed=None):
 def run_subproc(d, files, seed):
     env = dict(os.environ)
     env["PYTHONHASHSEED"] = str(seed)
-    env["PYTHONPATH"] = "/repo"
+    env["PYTHONPATH"] = os.environ.get("VERIF_REPO", "/repo")
     env.pop("REQ_COMPILE_VERIF", None)
     p = subprocess.run([sys.executable, "-W", "ignore", "-m", "req_compile.cmdline"] + list(files) + ["--find-links", "links", "--no-index", "--hashes"],
                        cwd=d, env=env, stdout=subprocess.PIPE, stderr=subprocess.PIPE, timeout=120)
